@@ -763,10 +763,53 @@ func toVT(v value, t types.Type) string {
 		return "PTR"
 	case structure:
 		if st, ok := t.Underlying().(*types.Struct); ok {
+			if allZero(x) {
+				return "ZEROV" // var zero T; return zero, err
+			}
 			return "(mk_" + sanitize(types.TypeString(t, qualNone)) + structFields(x, st) + ")"
 		}
 	}
 	return toV(v)
+}
+
+// allZero reports whether every field of a struct value is the zero value of its type.
+func allZero(s structure) bool {
+	for _, f := range s {
+		switch v := f.(type) {
+		case nil:
+		case bool:
+			if v {
+				return false
+			}
+		case string:
+			if v != "" {
+				return false
+			}
+		case int:
+			if v != 0 {
+				return false
+			}
+		case int64:
+			if v != 0 {
+				return false
+			}
+		case structure:
+			if !allZero(v) {
+				return false
+			}
+		case iface:
+			if v.t != nil {
+				return false
+			}
+		case *value:
+			if v != nil {
+				return false
+			}
+		default:
+			return false
+		}
+	}
+	return true
 }
 
 func structFields(s structure, st *types.Struct) string {
